@@ -502,6 +502,21 @@ func evaluate(a *adapter, seed int64, m *mutation, pool *tamper.Pool, want strin
 	switch {
 	case panicked:
 		// already reported under clause (a)
+	case want == "bound" && o.agg && o.aggRound != 0 && m.key.round == o.aggRound && m.key.to == 0:
+		// an input of the aggregator(s): every honest consumer of it must refuse
+		consumers := []sharing.ID{0}
+		if o.cosigners {
+			consumers = append(consumers, honestOf(o.ids, dev)...)
+		}
+		var accepting []string
+		for _, id := range consumers {
+			if !isReject(o.tr.Verdicts[id]) {
+				accepting = append(accepting, fmt.Sprint(uint64(id)))
+			}
+		}
+		if len(accepting) > 0 {
+			add("bound-leaf-undetected", fmt.Sprintf("the altered partial signature was not refused by aggregator(s) %s (0 = the plain aggregator) (%s); results returned by %v", strings.Join(accepting, ","), strings.Join(vt, " "), returned))
+		}
 	case want == "bound":
 		if m.key.to != 0 && !rep.rcptRej {
 			add("bound-leaf-undetected", fmt.Sprintf("the recipient %d of the altered unicast did not reject (%s); results returned by %v", uint64(m.key.to), strings.Join(vt, " "), returned))
@@ -741,9 +756,9 @@ func prepare(a *adapter, seed int64, res *vh.Result) *protoState {
 
 // quotas: number of mutated runs per protocol and tier.
 var quota = map[string]map[string]int{
-	"quick": {"session": 90, "gennaro": 80, "hjky": 60, "redistribute": 90, "redistribute-recover": 30, "lindell22": 100, "boldyreva": 34, "boldyreva-3": 4, "dkls23": 2, "aor": 40,
+	"quick": {"session": 90, "gennaro": 80, "hjky": 60, "redistribute": 90, "redistribute-recover": 30, "lindell22": 100, "lindell22-2": 24, "boldyreva": 34, "boldyreva-3": 4, "dkls23": 2, "aor": 40,
 		"canetti": 60, "dkls23-softspoken": 2, "lindell17": 3, "cggmp21": 0},
-	"thorough": {"session": 3000, "gennaro": 1500, "hjky": 800, "redistribute": 1500, "redistribute-recover": 600, "lindell22": 1500, "boldyreva": 200, "boldyreva-3": 100, "dkls23": 45, "aor": 600, "lindell17dkg": 24,
+	"thorough": {"session": 3000, "gennaro": 1500, "hjky": 800, "redistribute": 1500, "redistribute-recover": 600, "lindell22": 1500, "lindell22-2": 400, "boldyreva": 200, "boldyreva-3": 100, "dkls23": 45, "aor": 600, "lindell17dkg": 24,
 		"canetti": 1000, "dkls23-softspoken": 40, "lindell17": 60, "cggmp21": 40},
 }
 
